@@ -111,6 +111,9 @@ class RefPeerInflater(object):
                 self.real = zlib.decompressobj(-self.wbits)
             return list(out)
         b = payload
+        if len(b) == 0:
+            # an empty stored block with its tail stripped: inflates to the empty message (no history needed, none added)
+            return []
         if len(b) < 6 or not tb(eq_items([b[0]], [ZMAGIC])):
             raise ValueError('not a deflate stream of the abstract codec')
         n = b[4] * 256 + b[5]
